@@ -67,6 +67,28 @@ Section C01.
                           (vinv_init sub mul div ltb eqb zero one inf neg_inf L P)) Hl)).
   Qed.
 
+  (* the first sentence of the property, in one statement: on every reachable
+     state with both end points evaluated-or-pending, loss() is the loss
+     function's value on a pair of neighbouring evaluated points of the
+     current data, and no other neighbouring pair has a larger sort key *)
+  Theorem C01_reported_loss : OrdLaws ltb eqb -> forall h,
+    legal init h = true ->
+    let s := run init h in
+    missing_bounds eqb P s = [] -> los s <> [] ->
+    exists a b g, adj ltb (nb s) (a, b) /\ ScaleOK mul ltb P s g /\
+      loss s true = loss_of sub div ltb eqb zero one L P (nb s) (data s) (sx s) g a b /\
+      forall a' b', adj ltb (nb s) (a', b') -> exists g', ScaleOK mul ltb P s g' /\
+        ltb (finite_loss2 sub div is_nan is_inf round12 (a, b) (loss s true) (mgrx s))
+            (finite_loss2 sub div is_nan is_inf round12 (a', b')
+               (loss_of sub div ltb eqb zero one L P (nb s) (data s) (sx s) g' a' b') (mgrx s)) = false.
+  Proof.
+    intros OL h Hl s.
+    destruct (@values_inv num add sub mul div ltb eqb zero one inf neg_inf is_nan is_inf round12 of_nat L P OL h init
+                (conj (sinv_init add sub mul div ltb eqb zero inf neg_inf is_nan is_inf round12 P)
+                      (vinv_init sub mul div ltb eqb zero one inf neg_inf L P)) Hl) as [HI HV].
+    exact (@reported_loss num sub mul div ltb eqb zero one inf is_nan is_inf round12 L P OL s HI HV).
+  Qed.
+
   Theorem C01_loss_is_max : OrdLaws ltb eqb -> forall (s : st num) (real : bool),
     let table := if real then los s else losc s in
     (missing_bounds eqb P s <> [] \/ table = [] -> loss s real = inf) /\
@@ -126,6 +148,7 @@ Qed.
 
 Print Assumptions C01_structure_inv.
 Print Assumptions C01_values_inv.
+Print Assumptions C01_reported_loss.
 Print Assumptions C01_loss_is_max.
 Print Assumptions C01_sweep_resets_all.
 Print Assumptions C01_discard_resets.
